@@ -2,6 +2,7 @@ import Qryn.LogQL.SameShape
 import Qryn.Proofs.Closed
 import Qryn.Proofs.PlanClosedX
 import Qryn.Proofs.SelParts
+import Qryn.Proofs.PlanLogXSplit
 /-! C10, two requests of the same shape: `sameShapeX q1 q2 →` the statements `planLogX c fin q1` and `planLogX c fin q2`
     have the same segment list once the string leaves are emptied — derived from the relation on QUERIES by walking the
     planner, not assumed. With `plan_closed_logx` this gives equal token structure. -/
@@ -512,7 +513,8 @@ theorem planLogX_sameShape (c : Ctx) (fin : Bool) (q1 q2 : LogQueryX) (h : sameS
   have hchain := All2_fpChain c _ _ 0 _ _ (BEq_streamSelect c q1.matchers q2.matchers hm) hlc
   have hlen : (labelConds ⟨q1.matchers, (splitPre q1.stages).1⟩).length = (labelConds ⟨q2.matchers, (splitPre q2.stages).1⟩).length :=
     All2_length _ _ hlc
-  unfold planLogX
+  rw [planLogX_eq_split, planLogX_eq_split]
+  unfold planLogXSplit
   simp only
   cases hp1 : (splitPre q1.stages).2 with
   | nil =>
@@ -568,7 +570,8 @@ theorem splitPre_fl : ∀ ss : List Stage, splitPre (ss.map StageX.fl) = (ss, []
 
 /-- `planLog` is `planLogX` without label-rewriting stages, final -/
 theorem planLog_eq_planLogX (c : Ctx) (q : LogQuery) : planLog c q = planLogX c true ⟨q.matchers, q.stages.map .fl⟩ := by
-  unfold planLogX
+  rw [planLogX_eq_split]
+  unfold planLogXSplit
   simp only [splitPre_fl]
   rfl
 
